@@ -710,7 +710,7 @@ Definition enc_out (o : st * list sig * result ret) : list Z :=
   ++ match pref s with None => [0] | Some (p, w) => 1 :: enc_pref p ++ [w] end
   ++ [enc_bool (shiftv s)].
 
-Definition run_case (l : list Z) : list Z :=
+Definition run_case_str (l : list Z) : list Z :=
   match dec_variant l with
   | Some (v, r0) =>
     match dec_list r0 with
